@@ -61,6 +61,8 @@ def state_names(style, var, card):
         return [f"{str(var).lower()}{i}" for i in range(card)]
     if style == "permint":  # integers, but not in natural order: name != index
         return [(i + 1) % card + 10 for i in range(card)] if card > 1 else [10]
+    if style == "permrange":  # a permutation of 0..k-1: labels that look like indices but are not
+        return [(i + 1) % card for i in range(card)]
     if style == "mixed":
         return [i if i % 2 == 0 else f"s{i}" for i in range(card)]
     if style == "tuple":
